@@ -6,6 +6,11 @@ Local Open Scope N_scope.
 
 Ltac inv H := inversion H; subst; clear H.
 Ltac dtest c := let E := fresh "E" in destruct c eqn:E; rewrite ?E in *.
+(* present the list of the goal in another bracketing *)
+Ltac reshape t :=
+  match goal with
+  | |- ?P ?l => replace l with t by (repeat (cbn [app]; rewrite <- ?app_assoc); cbn [app]; reflexivity)
+  end.
 
 (* ---------------------------------------------------------------- mapM *)
 Lemma mapM_Forall2 : forall {A B} (f : A -> res B) l ls,
@@ -65,6 +70,10 @@ Lemma wrap_elem : forall n a body,
   xml_name_ok n = true -> xml_attr_ok a = true -> xforest body ->
   xelement ([XO n a] ++ body ++ [XC n]).
 Proof. intros. simpl. apply xe_elem; assumption. Qed.
+Lemma wrap_forest : forall n a body,
+  xml_name_ok n = true -> xml_attr_ok a = true -> xforest body ->
+  xforest ([XO n a] ++ body ++ [XC n]).
+Proof. intros. apply xelement_forest, wrap_elem; assumption. Qed.
 
 (* ---------------------------------------------------------------- character data *)
 Definition xchar (c : N) : bool := negb ((c =? 60) || (c =? 38)).
@@ -125,13 +134,20 @@ Proof.
   { intros m Hm. destruct (mm_real (cplx_re m)) eqn:E1; try discriminate.
     destruct (mm_real (cplx_im m)) eqn:E2; try discriminate. inv Hm.
     apply mm_real_elem in E1. apply mm_real_elem in E2.
-    change ([XO x_apply []; XO x_csymbol a_nums1; XT t_complex_cartesian; XC x_csymbol] ++ a ++ a0 ++ [XC x_apply])
-      with (XO x_apply [] :: (XO x_csymbol a_nums1 :: [XT t_complex_cartesian] ++ XC x_csymbol :: (a ++ a0)) ++ [XC x_apply]).
-    { apply xe_elem; [reflexivity | reflexivity |].
-      apply xf_elem; [reflexivity | reflexivity | apply xf_text; [reflexivity | constructor] |].
-      apply xforest_app; apply xelement_forest; assumption. }
+    reshape ([XO x_apply []] ++ (([XO x_csymbol a_nums1] ++ [XT t_complex_cartesian] ++ [XC x_csymbol]) ++ a ++ a0)
+               ++ [XC x_apply]).
+    apply wrap_elem; [reflexivity | reflexivity |].
+    apply xforest_app; [apply wrap_forest; [reflexivity | reflexivity | apply xf_text; [reflexivity | constructor]]|].
+    apply xforest_app; apply xelement_forest; assumption.
   }
-  destruct n; simpl in H; try (apply mm_real_elem; exact H); apply (Hc _ H).
+  destruct n as [z|p q|rn rd imn imd|b|re im|d|].
+  - exact (mm_real_elem _ _ H).
+  - exact (mm_real_elem _ _ H).
+  - exact (Hc (NCplx rn rd imn imd) H).
+  - exact (mm_real_elem _ _ H).
+  - exact (Hc (NCDbl re im) H).
+  - exact (mm_real_elem _ _ H).
+  - exact (mm_real_elem _ _ H).
 Qed.
 
 Lemma mm_constant_elem : forall nm l, mm_constant nm = Ok l -> xelement l.
@@ -184,7 +200,9 @@ Section Rec.
     mm_guard (fst p) = true /\ mm_guard (snd p) = true -> mm_factor rec p = Ok l -> xforest l.
   Proof.
     intros p l [G1 G2] H. unfold mm_factor in H. apply xelement_forest.
-    destruct (is_num_int (snd p) 1); [eapply IH; eauto | eapply mm_pow_elem; eauto].
+    destruct (is_num_int (snd p) 1).
+    - exact (IH _ _ G1 H).
+    - exact (mm_pow_elem _ _ _ G1 G2 H).
   Qed.
 
   Lemma mm_mul_elem : forall c d l,
@@ -207,7 +225,8 @@ Section Rec.
     intros [k v] l G H. unfold mm_term in H. simpl fst in *. simpl snd in *. apply xelement_forest.
     destruct (num_is v 1); [eapply IH; eauto|].
     destruct (num_is v 0); [eapply mm_number_elem; eauto|].
-    destruct k; try (eapply mm_mul_elem; [|exact H]; simpl; rewrite G; reflexivity).
+    destruct k as [n|nm|nm idx|nm|c0 d0|c0 d|b x|code a|code a b|code args|nm args|code a b|a xs|a d0|pl|bv|s0 e0 lo ro|code];
+      try (eapply mm_mul_elem; [|exact H]; cbn [forallb fst snd]; rewrite G; reflexivity).
     - (* EMul *)
       destruct (num_is_zero v); [eapply mm_number_elem; eauto|].
       destruct d; [eapply mm_number_elem; eauto|].
@@ -251,26 +270,27 @@ Section Rec.
   Lemma mm_node_elem : forall e l, mm_guard e = true -> mm_node rec e = Ok l -> xelement l.
   Proof.
     intros e l G H. unfold mm_guard in G.
-    destruct e; cbn [all_nodes] in G; apply andb_prop in G; destruct G as [Gn Gk]; cbn [mm_node] in H.
+    destruct e as [n|nm|nm idx|nm|c d|c d|b x|code a|code a c|code args|nm args|code a c|a xs|a d|pl|bv|s x lo ro|code];
+      cbn [all_nodes] in G; apply andb_prop in G; destruct G as [Gn Gk]; cbn [mm_node] in H.
     - (* ENum *) eapply mm_number_elem; eauto.
     - (* ESym *) inv H. apply wrap_elem; [reflexivity | reflexivity | apply xml_escape_forest].
     - (* EDummy *) inv H. apply wrap_elem; [reflexivity | reflexivity | apply xml_escape_forest].
     - (* EConst *) eapply mm_constant_elem; eauto.
     - (* EAdd *) eapply mm_add_elem; eauto.
     - (* EMul *) eapply mm_mul_elem; eauto.
-    - (* EPow *) apply andb_prop in Gk. destruct Gk. eapply mm_pow_elem; eauto.
+    - (* EPow *) apply andb_prop in Gk. destruct Gk as [G1 G2]. exact (mm_pow_elem b x l G1 G2 H).
     - (* EF1 *)
       unfold mm_node_ok, mm_function_node in Gn.
       dtest (code =? TC_Not).
-      + destruct (rec e) eqn:E1; try discriminate. inv H.
+      + destruct (rec a) eqn:E1; try discriminate. inv H.
         apply x_app_elem; [reflexivity | eapply IHf; eauto].
       + dtest (code =? TC_UnevaluatedExpr); [eapply IH; eauto|].
         simpl in Gn. eapply mm_function_elem; eauto. simpl. unfold mm_guard. rewrite Gk. reflexivity.
     - (* EF2 *)
       apply andb_prop in Gk. destruct Gk as [G1 G2].
       unfold mm_node_ok, mm_function_node in Gn.
-      destruct (rel_tag code) eqn:ER.
-      + eapply app_list_elem; [| |exact H].
+      destruct (rel_tag code) as [tag|] eqn:ER.
+      + eapply (app_list_elem tag); [| |exact H].
         * unfold rel_tag in ER.
           repeat match type of ER with
                  | (if ?c then _ else _) = _ => destruct c; [inv ER; reflexivity|]
@@ -279,10 +299,10 @@ Section Rec.
       + eapply mm_function_elem; eauto. simpl. unfold mm_guard. rewrite G1, G2. reflexivity.
     - (* EFN *)
       unfold mm_node_ok, mm_function_node in Gn.
-      dtest (code =? TC_And); [eapply app_list_elem; [reflexivity | exact Gk | exact H]|].
-      dtest (code =? TC_Or); [eapply app_list_elem; [reflexivity | exact Gk | exact H]|].
-      dtest (code =? TC_Xor); [eapply app_list_elem; [reflexivity | exact Gk | exact H]|].
-      dtest (code =? TC_Union); [eapply app_list_elem; [reflexivity | exact Gk | exact H]|].
+      dtest (code =? TC_And); [eapply (app_list_elem x_and); [reflexivity | exact Gk | exact H]|].
+      dtest (code =? TC_Or); [eapply (app_list_elem x_or); [reflexivity | exact Gk | exact H]|].
+      dtest (code =? TC_Xor); [eapply (app_list_elem x_xor); [reflexivity | exact Gk | exact H]|].
+      dtest (code =? TC_Union); [eapply (app_list_elem x_union); [reflexivity | exact Gk | exact H]|].
       dtest (code =? TC_FiniteSet).
       { destruct (mm_list rec args) eqn:E5; try discriminate. inv H.
         apply wrap_elem; [reflexivity | reflexivity | eapply mm_list_forest; eauto]. }
@@ -292,11 +312,11 @@ Section Rec.
         simpl in Gk. apply andb_prop in Gk. destruct Gk as [Gs Gc]. apply andb_prop in Gc. destruct Gc as [Gc _].
         destruct (rec sym) eqn:Es; try discriminate. destruct (rec cond) eqn:Ecd; try discriminate. inv H.
         pose proof (IHf _ _ Gs Es) as Fs. pose proof (IHf _ _ Gc Ecd) as Fc.
-        change ([XO x_set []; XO x_bvar []] ++ a ++ [XC x_bvar; XO x_condition []] ++ a0 ++ [XC x_condition] ++ a ++ [XC x_set])
-          with (XO x_set [] :: (XO x_bvar [] :: a ++ XC x_bvar :: (XO x_condition [] :: a0 ++ XC x_condition :: a)) ++ [XC x_set]).
-        { apply xe_elem; [reflexivity | reflexivity |].
-          apply xf_elem; [reflexivity | reflexivity | exact Fs |].
-          apply xf_elem; [reflexivity | reflexivity | exact Fc | exact Fs]. } }
+        reshape ([XO x_set []] ++ (([XO x_bvar []] ++ a ++ [XC x_bvar]) ++ ([XO x_condition []] ++ a0 ++ [XC x_condition]) ++ a)
+                   ++ [XC x_set]).
+        apply wrap_elem; [reflexivity | reflexivity |].
+        apply xforest_app; [apply wrap_forest; [reflexivity | reflexivity | exact Fs]|].
+        apply xforest_app; [apply wrap_forest; [reflexivity | reflexivity | exact Fc] | exact Fs]. }
       dtest (code =? TC_ImageSet).
       { destruct args as [|sym [|ex [|base [|? ?]]]]; try discriminate.
         simpl in Gk. apply andb_prop in Gk. destruct Gk as [Gs Gk]. apply andb_prop in Gk. destruct Gk as [Gx Gk].
@@ -304,43 +324,40 @@ Section Rec.
         destruct (rec ex) eqn:Ex; try discriminate. destruct (rec sym) eqn:Es; try discriminate.
         destruct (rec base) eqn:Eb; try discriminate. inv H.
         pose proof (IHf _ _ Gs Es) as Fs. pose proof (IHf _ _ Gx Ex) as Fx. pose proof (IHf _ _ Gb Eb) as Fb.
-        change ([XO x_set []; XO x_bvar []] ++ a ++ [XC x_bvar; XO x_condition []; XO x_apply []; XE x_in] ++ a0 ++ a1
-                  ++ [XC x_apply; XC x_condition] ++ a0 ++ [XC x_set])
-          with (XO x_set [] :: (XO x_bvar [] :: a ++ XC x_bvar ::
-                  (XO x_condition [] :: (XO x_apply [] :: (XE x_in :: a0 ++ a1) ++ XC x_apply :: []) ++ XC x_condition :: a0))
-                  ++ [XC x_set]).
-        { apply xe_elem; [reflexivity | reflexivity |].
-          apply xf_elem; [reflexivity | reflexivity | exact Fx |].
-          apply xf_elem; [reflexivity | reflexivity | | exact Fs].
-          apply xf_elem; [reflexivity | reflexivity | | constructor].
-          apply xf_empty; [reflexivity | apply xforest_app; assumption]. } }
+        reshape ([XO x_set []] ++ (([XO x_bvar []] ++ a ++ [XC x_bvar])
+                   ++ ([XO x_condition []] ++ ([XO x_apply []] ++ ([XE x_in] ++ a0 ++ a1) ++ [XC x_apply]) ++ [XC x_condition]) ++ a0)
+                   ++ [XC x_set]).
+        apply wrap_elem; [reflexivity | reflexivity |].
+        apply xforest_app; [apply wrap_forest; [reflexivity | reflexivity | exact Fx]|].
+        apply xforest_app; [|exact Fs].
+        apply wrap_forest; [reflexivity | reflexivity |].
+        apply wrap_forest; [reflexivity | reflexivity |].
+        apply xf_empty; [reflexivity | apply xforest_app; assumption]. }
       simpl in Gn. eapply mm_function_elem; eauto.
     - (* EFunSym *)
       destruct (mm_list rec args) eqn:E; try discriminate. inv H.
       pose proof (mm_list_forest _ _ Gk E) as Fa.
-      change ([XO x_apply []; XO x_ci []] ++ xml_escape name ++ [XC x_ci] ++ a ++ [XC x_apply])
-        with (XO x_apply [] :: (XO x_ci [] :: xml_escape name ++ XC x_ci :: a) ++ [XC x_apply]).
-      { apply xe_elem; [reflexivity | reflexivity |].
-        apply xf_elem; [reflexivity | reflexivity | apply xml_escape_forest | exact Fa]. }
+      reshape ([XO x_apply []] ++ (([XO x_ci []] ++ xml_escape nm ++ [XC x_ci]) ++ a) ++ [XC x_apply]).
+      apply wrap_elem; [reflexivity | reflexivity |].
+      apply xforest_app; [apply wrap_forest; [reflexivity | reflexivity | apply xml_escape_forest] | exact Fa].
     - (* ELex *)
       apply andb_prop in Gk. destruct Gk as [G1 G2].
-      assert (GL : forallb mm_guard [e1; e2] = true) by (simpl; unfold mm_guard; rewrite G1, G2; reflexivity).
-      dtest (code =? TC_Contains); [eapply app_list_elem; [reflexivity | exact GL | exact H]|].
-      dtest (code =? TC_Complement); [eapply app_list_elem; [reflexivity | exact GL | exact H]|].
+      assert (GL : forallb mm_guard [a; c] = true) by (simpl; unfold mm_guard; rewrite G1, G2; reflexivity).
+      dtest (code =? TC_Contains); [eapply (app_list_elem x_in); [reflexivity | exact GL | exact H]|].
+      dtest (code =? TC_Complement); [eapply (app_list_elem x_setdiff); [reflexivity | exact GL | exact H]|].
       discriminate.
     - (* EDeriv *)
       apply andb_prop in Gk. destruct Gk as [Ga Gx].
-      destruct (mm_list rec xs) eqn:Ex; try discriminate. destruct (rec e) eqn:Ea; try discriminate. inv H.
+      destruct (mm_list rec xs) eqn:Ex; try discriminate. destruct (rec a) eqn:Ea; try discriminate. inv H.
       pose proof (mm_list_forest _ _ Gx Ex) as Fx. pose proof (IHf _ _ Ga Ea) as Fa.
-      change ([XO x_apply []; XE x_partialdiff; XO x_bvar []] ++ a ++ [XC x_bvar] ++ a0 ++ [XC x_apply])
-        with (XO x_apply [] :: (XE x_partialdiff :: XO x_bvar [] :: a ++ XC x_bvar :: a0) ++ [XC x_apply]).
-      { apply xe_elem; [reflexivity | reflexivity |].
-        apply xf_empty; [reflexivity|].
-        apply xf_elem; [reflexivity | reflexivity | exact Fx | exact Fa]. }
+      reshape ([XO x_apply []] ++ ([XE x_partialdiff] ++ ([XO x_bvar []] ++ a0 ++ [XC x_bvar]) ++ a1) ++ [XC x_apply]).
+      apply wrap_elem; [reflexivity | reflexivity |].
+      apply xf_empty; [reflexivity|].
+      apply xforest_app; [apply wrap_forest; [reflexivity | reflexivity | exact Fx] | exact Fa].
     - (* ESubs *) discriminate.
     - (* EPw *)
       match type of H with
-      | match mapM ?f l0 with _ => _ end = _ => destruct (mapM f l0) eqn:E; try discriminate
+      | match mapM ?f pl with _ => _ end = _ => destruct (mapM f pl) eqn:E; try discriminate
       end.
       inv H. apply wrap_elem; [reflexivity | reflexivity |].
       eapply (mapM_forest _ (fun p => mm_guard (fst p) = true /\ mm_guard (snd p) = true)); [| | exact E].
@@ -350,10 +367,10 @@ Section Rec.
         eapply mm_list_forest; [|exact Ep]. simpl. rewrite G1, G2. reflexivity.
       + apply Forall_forall. intros q Hq. rewrite forallb_forall in Gk. specialize (Gk q Hq).
         apply andb_prop in Gk. exact Gk.
-    - (* EBool *) inv H. apply xe_empty. destruct b; reflexivity.
+    - (* EBool *) inv H. apply xe_empty. destruct bv; reflexivity.
     - (* EInterval *)
       apply andb_prop in Gk. destruct Gk as [G1 G2].
-      destruct (mm_list rec [e1; e2]) eqn:E; try discriminate. inv H.
+      destruct (mm_list rec [s; x]) eqn:E; try discriminate. inv H.
       apply wrap_elem; [reflexivity | destruct lo, ro; reflexivity |].
       eapply mm_list_forest; [|exact E]. simpl. unfold mm_guard. rewrite G1, G2. reflexivity.
     - (* EAtom *) eapply mm_atom_elem; eauto.
@@ -362,8 +379,8 @@ End Rec.
 
 Lemma mathml_fuel_elem : forall f e l, mm_guard e = true -> mathml_fuel f e = Ok l -> xelement l.
 Proof.
-  induction f; intros e l G H; [discriminate|].
-  simpl in H. eapply mm_node_elem; [|exact G|exact H]. exact IHf.
+  induction f as [|f IHfuel]; intros e l G H; [discriminate|].
+  simpl in H. eapply mm_node_elem; [|exact G|exact H]. exact IHfuel.
 Qed.
 
 Theorem mathml_wellformed : forall e l, mm_guard e = true -> mathml_toks e = Ok l -> xelement l.
